@@ -66,6 +66,7 @@ class Evaluator:
         self.globals_env: Optional[Dict[str, Any]] = None  # module-level names (interpreters that follow calls)
         self.global_names: set = set()
         self.on_name: Optional[Callable[["Evaluator", ast.Name], Any]] = None
+        self.on_def: Optional[Callable[["Evaluator", ast.FunctionDef], Any]] = None
         self.loops = False  # interpret for-loops over concrete iterables (opt-in)
         self.with_binds_value = False  # interpret ``with X as m`` as ``m = X`` (opt-in)
 
@@ -371,8 +372,8 @@ class Evaluator:
                     return sum(args[0])
                 if f.id == "sorted" and len(args) == 1:
                     return sorted(args[0])
-                if f.id in ("list", "tuple", "set", "dict", "OrderedDict"):
-                    return {"list": list, "tuple": tuple, "set": set, "dict": dict, "OrderedDict": dict}[f.id](*args)
+                if f.id in ("list", "tuple", "set", "dict", "OrderedDict", "frozenset"):
+                    return {"list": list, "tuple": tuple, "set": set, "dict": dict, "OrderedDict": dict, "frozenset": frozenset}[f.id](*args)
                 if f.id == "str":
                     return str(args[0])
                 if f.id == "zip":
@@ -446,6 +447,8 @@ class Evaluator:
             raise EvalRaise(name, s)
         elif isinstance(s, ast.Pass):
             pass
+        elif isinstance(s, ast.FunctionDef) and self.on_def is not None:
+            self.env[s.name] = self.on_def(self, s)
         elif isinstance(s, ast.Global) and self.globals_env is not None:
             self.global_names.update(s.names)
         elif isinstance(s, ast.For) and self.loops:
